@@ -205,6 +205,10 @@ TARGETS = [
     dict(fn='osmium::io::detail::append_codepoint_as_utf8', sig='back_insert_iterator'),
     dict(fn='osmium::io::detail::opl_parse_escaped'),
     dict(fn='osmium::io::detail::opl_parse_string'),
+    dict(fn='osmium::io::detail::opl_parse_char'),
+    dict(fn='osmium::io::detail::append_2_hex_digits'),
+    dict(fn='osmium::io::detail::append_min_4_hex_digits'),
+    dict(fn='osmium::io::detail::append_utf8_encoded_string'),
 ]
 
 
